@@ -254,6 +254,44 @@ def run_enum(args):
         return {"error": f"enum chunk {idx}:\n" + traceback.format_exc()}
 
 
+def run_fuzz(pid, tier, seed, runs_per_proc, instrument=None):
+    """Run pbt.fuzz in parallel processes; returns (list of shard results, note for the evidence)."""
+    import subprocess
+    import tempfile
+    try:
+        import atheris  # noqa: F401
+    except Exception as e:   # not installed: say so, do not fail
+        return [], {"engine": "atheris", "status": f"not available ({type(e).__name__}); Hypothesis only"}
+    nproc = int(os.environ.get("VERIF_JOBS", "16"))
+    tmp = tempfile.mkdtemp(prefix="verif_fuzzout_")
+    procs = []
+    for i in range(nproc):
+        out = os.path.join(tmp, f"{i}.json")
+        cmd = [sys.executable, "-W", "ignore", "-m", "pbt.fuzz", pid, "--runs", str(runs_per_proc), "--seed",
+               str(seed * 1000 + 500 + i), "--out", out, "--tier", tier]
+        if instrument:
+            cmd += ["--instrument", instrument]
+        procs.append((subprocess.Popen(cmd, stdout=subprocess.DEVNULL, stderr=subprocess.DEVNULL, cwd=HERE), out))
+    res, execs = [], 0
+    for p, out in procs:
+        p.wait()
+        if os.path.exists(out):
+            with open(out) as fh:
+                d = json.load(fh)
+            d["hashes"], d["nt_hashes"] = set(d["hashes"]), set(d["nt_hashes"])
+            for b in d["viol"].values():
+                b["cases"] = [tuple(c) for c in b["cases"]]
+            execs += d["evaluations"]
+            res.append(d)
+    import shutil
+    shutil.rmtree(tmp, ignore_errors=True)
+    import glob
+    for dd in glob.glob(os.path.join(tempfile.gettempdir(), "verif_fuzz_*")):
+        shutil.rmtree(dd, ignore_errors=True)
+    return res, {"engine": "atheris/libFuzzer via hypothesis fuzz_one_input", "processes": nproc,
+                 "runs_per_process": runs_per_proc, "executions_accepted": execs, "status": "ok"}
+
+
 def pmap(fn, jobs):
     jobs = list(jobs)
     if not jobs:
@@ -376,6 +414,13 @@ def main(argv=None):
     per = [n_examples // n_shards + (1 if i < n_examples % n_shards else 0) for i in range(n_shards)]
     jobs = [(pid, a.tier, seed * 1000 + i, per[i], i) for i in range(n_shards) if per[i] > 0]
     parts += pmap(run_shard, jobs)
+    # --- 2b. coverage-guided engine (atheris) for modules that ask for it (thorough tier) ----------------------
+    fuzz_note = None
+    fz = getattr(mod, "FUZZ", None)
+    if fz and fz.get(a.tier, 0) > 0 and (a.examples is None or os.environ.get("VERIF_FUZZ_RUNS")):
+        fparts, fuzz_note = run_fuzz(pid, a.tier, seed, int(os.environ.get("VERIF_FUZZ_RUNS") or fz[a.tier]),
+                                     fz.get("instrument"))
+        parts += fparts
     tot = merge(parts)
 
     # --- 3./4. report -----------------------------------------------------------------------------------------
@@ -419,6 +464,8 @@ def main(argv=None):
     if n_enum:
         cov["exhaustive_subspace"] = getattr(mod, "EXHAUSTIVE_NOTE", "")
         cov["enumerated"] = n_enum
+    if fuzz_note is not None:
+        cov["coverage_guided"] = fuzz_note
     if hasattr(mod, "extra_evidence"):
         cov.update(mod.extra_evidence(a.tier))
     ev = {
